@@ -9,7 +9,7 @@ PYTHONPATH=$W /venv/bin/python "$S/demo.py" >/tmp/seed_$ID_$N.demo.out 2>&1; DEM
 if [ "$3" != "notests" ]; then
   T=$(PYTHONPATH=$W /venv/bin/python -m pytest -q -p no:cacheprovider --timeout=900 --continue-on-collection-errors 2>&1 | grep -E "passed|failed" | tail -1)
 else T="(tests not run)"; fi
-cd /verif
+cd ${VERIF_DIR:-/verif}
 OUT=$(PYBC_REPO=$W VERIF_UNIT_TIMEOUT=${VERIF_UNIT_TIMEOUT:-400} ./check $ID 2>&1 | grep -E "^VIOLATION|^KNOWN|^INCONCLUSIVE property=$ID undecided|HARNESS-ERROR|exit=" | cut -c1-230)
 NV=$(echo "$OUT" | grep -c "^VIOLATION")
 EX=$(echo "$OUT" | grep -o "exit=[0-9]" | tail -1)
